@@ -75,7 +75,7 @@ def run(facts, rep, tier):
                    "bind -> inline once -> unbind on every non-error path" if not bad else
                    "; ".join(sorted(set(bad))) + ": stale ephemeral bindings make a later copy reuse nodes of an earlier one",
                    b.loc(a))
-    rep.floor("C07.B", "assign_input_nodes call sites in inline/**", n_sites, 7)
+    rep.floor("C07.B", "assign_input_nodes call sites in inline/**", n_sites, 5)
     # ------------------------------------------------------------------ C07.F
     r = facts.body("inline::inline_ops::recursively_inline_graph")
     if rep.anchor("C07.F", "inline::inline_ops::recursively_inline_graph", r):
